@@ -312,7 +312,7 @@ Final == ~Running \/ OutOfModel
 NoUntrackedChild ==
   m.cause # "boot" => \A p \in Pid : st[p] \in {"run", "hung", "zomb"} => (p \in m.W \/ p = m.pend)
 NoZombieAtRest == (m.pc = "Select" /\ ~chld) => Zomb = {}
-TargetBounds == m.nw >= 1 /\ m.nw <= MaxNW
+TargetBounds == m.nw >= 1          \* TTOU never takes the target below one (the upper bound is the environment's)
 KillOnlyChildren == m.pc = "Kill" => (m.kp >= 1 /\ m.kp < nextPid)
 RetireIsOldest ==
   (m.pc = "Kill" /\ m.kctx = "mw" /\ st[m.kp] \in {"run", "hung"})
